@@ -14,6 +14,10 @@ def main():
     mp = os.path.join(SEEDED, "matrix.json")
     if os.path.exists(mp):
         matrix = json.load(open(mp))
+    sweep = {}
+    sp = os.path.join(SEEDED, "sweep.json")
+    if os.path.exists(sp):
+        sweep = json.load(open(sp))
     rows = []
     for d in sorted(glob.glob(os.path.join(SEEDED, "C*")) + sorted(glob.glob(os.path.join(SEEDED, "X*")), key=lambda x: int(os.path.basename(x)[1:]))):
         if not os.path.isdir(d):
@@ -22,8 +26,13 @@ def main():
         meta = json.load(open(os.path.join(d, "meta.json")))
         v = meta.get("verified_by_us", {})
         target = str(meta.get("property", name[:3])).split()[0].strip(",;")
-        chk = dict(v.get("checks", {}))
-        chk.update(matrix.get(name, {}))
+        chk = dict(matrix.get(name, {}))
+        chk.update(v.get("checks", {}))
+        # the latest re-run of every kept change against its target check with the current machinery (py/seed_sweep.py)
+        sw = sweep.get(name)
+        if sw and sw.get("rc") is not None:
+            chk[sw["property"]] = {"rc": sw["rc"], "kind": sw.get("kind"), "clause": sw.get("clause"),
+                                   "broken": chk.get(sw["property"], {}).get("broken", [])}
         caught = sorted(p for p, c in chk.items() if c.get("rc") == 1)
         concrete = sorted(p for p, c in chk.items() if c.get("rc") == 1 and c.get("kind") == "concrete-failing-input")
         t = chk.get(target, {})
